@@ -4,6 +4,7 @@ package main
 import (
 	"bytes"
 	"fmt"
+	"io"
 	"github.com/theparanoids/ysshra/verifharness/lib/gen"
 	"golang.org/x/crypto/ssh/agent"
 	"net"
@@ -788,6 +789,121 @@ func backToBack(r *ev.Run) {
 	}
 }
 
+// oneConnectionStreams: what one connection carries besides single well-separated requests. (a) Two or three requests
+// written in one piece: each of them is a request received, so a client waiting for the code of the second or third is
+// released. (b) A frame whose declared length is over the limit ends that connection; the octets after its length are
+// not requests (they are the inside of a frame that was refused), so a client waiting for a code is not released by
+// octets that would spell a request with that code.
+func oneConnectionStreams(r *ev.Run) {
+	type variant struct {
+		Name    string
+		Wait    byte
+		Stream  []byte
+		Release bool
+	}
+	fr := func(codes ...byte) []byte {
+		var b []byte
+		for _, c := range codes {
+			b = append(b, wire.Frame([]byte{c})...)
+		}
+		return b
+	}
+	over := func(n uint32, rest []byte) []byte {
+		return append([]byte{byte(n >> 24), byte(n >> 16), byte(n >> 8), byte(n)}, rest...)
+	}
+	rep := func(b []byte, n int) []byte { return bytes.Repeat(b, n) }
+	vs := []variant{
+		{"pipelined:19,11", 11, fr(19, 11), true},
+		{"pipelined:11,19", 19, fr(11, 19), true},
+		{"pipelined:11,1,11,19", 19, fr(11, 1, 11, 19), true},
+		{"pipelined:19,19,11", 11, fr(19, 19, 11), true},
+		{"pipelined:11,11", 19, fr(11, 11), false},
+		{"over-limit-then-frames", 11, over(16<<20+2, rep(fr(11), 40)), false},
+		{"over-limit-then-code-then-frames", 11, over(1<<30, append([]byte{13}, rep(fr(11), 40)...)), false},
+		{"over-limit-max-then-frames", 19, over(0xffffffff, rep(fr(19), 40)), false},
+		{"over-limit-then-frames-two-codes", 19, over(16<<20+1, rep(fr(11, 19), 40)), false},
+	}
+	for vi, v := range vs {
+		c := r.Case("one-connection-streams", vi)
+		if c == nil || wedgedOnce || r.NumViolations() > 8 {
+			continue
+		}
+		r.Eval(1)
+		r.Guard(c, "stream on one connection", v.Name, func() {
+			g, err := newRig(false)
+			if err != nil {
+				r.Count("one-connection-streams: rig could not be built", 1)
+				return
+			}
+			defer g.close()
+			w, err := g.startWaiter(v.Wait)
+			if err != nil {
+				return
+			}
+			defer w.conn.Close()
+			if n := waitParked(1, ev.OpTimeout()); n != 1 {
+				r.Violation(c, "waiter-does-not-register:one-connection-streams", fmt.Sprintf("%d parked", n), v.Name)
+				return
+			}
+			p1, p2, err := wire.SocketPair()
+			if err != nil {
+				return
+			}
+			served := make(chan struct{})
+			go func() {
+				defer close(served)
+				defer p2.Close()
+				defer func() { recover() }()
+				yubiagent.ServeAgent(g.srv, p2)
+			}()
+			go func() { io.Copy(io.Discard, p1) }() // replies are read and dropped
+			p1.Write(v.Stream)                      // one piece
+			if v.Release {
+				select {
+				case <-w.done:
+					r.Count("waiters released by a request that arrived in one piece with others", 1)
+				case <-time.After(ev.OpTimeout()):
+					r.Violation(c, "waiter-not-released:request-written-in-one-piece-with-others", fmt.Sprintf("%s: the client waiting for code %d is still parked", v.Name, v.Wait), v.Name)
+					wedgedOnce = true
+				}
+				p1.Close()
+				<-served
+				if !wedgedOnce {
+					r.Nontrivial("one-connection-streams:" + v.Name)
+				}
+				return
+			}
+			// the sender is done: half-close, so that the service of this connection ends either way
+			if uc, ok := p1.(*net.UnixConn); ok {
+				uc.CloseWrite()
+			} else {
+				p1.Close()
+			}
+			select {
+			case <-served:
+			case <-time.After(ev.OpTimeout()):
+				p1.Close()
+				<-served
+			}
+			p1.Close()
+			if w.poll() {
+				r.Violation(c, "waiter-released-by-other-code:one-connection-streams", fmt.Sprintf("%s: the client waiting for code %d returned although no request with that code was received", v.Name, v.Wait), v.Name)
+				return
+			}
+			g.poke(v.Wait)
+			select {
+			case <-w.done:
+			case <-time.After(ev.OpTimeout()):
+				r.Violation(c, "waiter-not-released:one-connection-streams", v.Name, v.Name)
+				wedgedOnce = true
+				return
+			}
+			r.Count("waiters left alone by octets that are not requests (inside of a refused frame, other codes)", 1)
+			r.Nontrivial("one-connection-streams:" + v.Name)
+		})
+	}
+}
+
 // housekeeping: what the agent does on its own while serving a request (dropping a lapsed certificate during a
 // listing) is not a request received from a client: a client waiting for the remove-identity code is not released by
 // a listing that happens to clean up, and is released by a remove request afterwards.
@@ -1117,6 +1233,7 @@ func main() {
 		backToBack(r)
 		stalledWaiters(r)
 		housekeeping(r)
+		oneConnectionStreams(r)
 		cs := []string{}
 		_ = sort.Strings
 		_ = cs
